@@ -766,9 +766,19 @@ def configure(repo, chk):
             chk.unsure('C19.8', 'R6', site, desc, 'the path does not say which kind of structure entry it serves')
             continue
         wrong = [(k_, ba.get(k_)) for k_, w in need.items() if ba.get(k_) != w]
+        # a flag that is False on this path and left to its default False arrives as it should
+        gargs = gen.node.args
+        gdef = dict(zip([a_.arg for a_ in gargs.args][len(gargs.args) - len(gargs.defaults):], gargs.defaults))
+        flags_here = {t.id: v for t, v in res.assumed if isinstance(t, ast.Name)}
+        wrong = [(k_, g) for k_, g in wrong if not (g is None and k_ in flags_here and isinstance(gdef.get(k_), ast.Constant) and isinstance(gdef[k_].value, bool)
+                                                     and gdef[k_].value == flags_here[k_] and need.get(k_) == E(k_))]
         if kind == 'a value list' and ba.get('p') not in (None, ('none',)):
             wrong.append(('p', ba.get('p')))
-        if wrong:
+        known_table = lambda v: isinstance(v, ast.Dict) and v.keys and all(isinstance(q, ast.Constant) and isinstance(q.value, str) for q in v.keys)
+        if wrong and (any(k.arg is None and not known_table(k.value) for k in call.keywords) or any(isinstance(a_, ast.Starred) for a_ in call.args)):
+            # **table / *sequence in the call: which parameter receives what is not visible at the call site
+            chk.unsure('C19.8', 'R6', site, f'{desc}: {ast.unparse(call)[:120]}', f'_generate_feature is called with a ** / * expansion: the value that reaches `{wrong[0][0]}` is not decided')
+        elif wrong:
             k_, got = wrong[0]
             chk.bad('C19.8', 'R6', site, f'{desc}: {ast.unparse(call)[:120]}', f'for {kind} the parameter `{k_}` of _generate_feature must receive {show(need.get(k_, ("none",)))[:40]}; it receives {show(got)[:60] if got is not None else "nothing (its default)"}')
         else:
